@@ -5,6 +5,7 @@ mod codec;
 mod conc;
 mod crash;
 mod frag;
+mod nestrecv;
 mod nullser;
 mod prog;
 mod res;
@@ -33,6 +34,7 @@ fn main() {
         "codec" => codec::run(),
         "prog" => prog::run(),
         "res" => res::run(),
+        "nestrecv" => nestrecv::run(),
         "wake" => wake::run(),
         "server" => server::run(),
         "client" => server::run_client(&args[2..]),
